@@ -801,7 +801,11 @@ pub fn worker_main(def: &CheckDef, tier: Tier, shard: u64, nshards: u64, journal
     cap_memory();
     let j = Journal::open(journal);
     let mut ctx = Ctx::new(tier, shard, nshards, Mode::Run, skip, Some(j));
-    (def.run)(&mut ctx);
+    // a panic in enumeration code OUTSIDE a case is a harness bug, not a verdict about okane
+    if let Err(sig) = guarded(|| (def.run)(&mut ctx)) {
+        eprintln!("MACHINERY-ERROR: panic in the enumeration code of {} outside any case: {}", def.id, sig);
+        return 3;
+    }
     ctx.finish();
     // remove this process's scratch directories (oka::scratch_dir names them <tag>-<pid>)
     if let Ok(rd) = std::fs::read_dir(scratch_root()) {
